@@ -600,6 +600,21 @@ def fuse_iterators(F):
             if len(t['args']) != (3 if cons in ('fold', 'try_fold') else 1 if cons == 'collect' else 2):
                 continue
             cclo = _closure_of(F, b, t['args'][-1]) if cons != 'collect' else None
+            if cclo is None and cons in ('for_each', 'try_for_each', 'any', 'all', 'find_map') and t['args'][-1]['k'] == 'const' and t['args'][-1].get('fn'):
+                # a function item as the callable (`.try_for_each(std::fs::remove_dir)`): the closure `|x| f(x)` it stands for
+                fop = t['args'][-1]
+                cclo = type('FnItem', (), {})()
+                rty = b.locals[t['dst']['l']]['ty'] if cons in ('try_for_each', 'find_map') else ('()' if cons == 'for_each' else 'bool')
+                cclo.locals = [{'ty': rty, 'name': None, 'user': False}, {'ty': '()', 'name': None, 'user': False}, {'ty': '?', 'name': None, 'user': False}]
+                pos_ = {'line': t.get('line'), 'col': t.get('col'), 'exp': False}
+                cclo.blocks = [{'stmts': [], 'cleanup': False,
+                                'term': dict(pos_, k='call', func={'k': 'const', 'fn': fop['fn'], 'dbg': fop.get('dbg', 'fn item')}, args=[{'k': 'move', 'p': {'l': 2, 'proj': []}}],
+                                             dst={'l': 0, 'proj': []}, target=1)},
+                               {'stmts': [], 'cleanup': False, 'term': dict(pos_, k='return')}]
+                cclo.path = p + '::{fn-item:%s}' % fop['fn']
+                cclo.argc = 2
+                cclo.kind = 'closure'
+                cclo.parent = p
             if cclo is None and cons != 'collect':
                 continue
             if cons == 'collect' and not re.match(r'^(?:std|alloc)::vec::Vec<', b.locals[t['dst']['l']]['ty']):
